@@ -512,15 +512,18 @@ func defaultRedirectTrailingSlashHandler(c Context) {
 		code = http.StatusPermanentRedirect
 	}
 
-	var url string
-	if len(req.URL.RawPath) > 0 {
-		url = FixTrailingSlash(req.URL.RawPath)
-	} else {
-		url = FixTrailingSlash(req.URL.Path)
-	}
+	// The escaped form keeps reserved characters of the last segment (e.g. %3F) from being reinterpreted
+	// when the client resolves the Location.
+	url := FixTrailingSlash(req.URL.EscapedPath())
 
 	if url[len(url)-1] == '/' {
-		localRedirect(c.Writer(), req, path.Base(url)+"/", code)
+		base := path.Base(url)
+		if strings.IndexByte(base, ':') >= 0 {
+			// A relative reference whose first segment contains a colon would be read as a URL scheme
+			// (RFC 3986 section 4.2), e.g. /https:example.com would redirect to another origin.
+			base = "./" + base
+		}
+		localRedirect(c.Writer(), req, base+"/", code)
 		return
 	}
 	localRedirect(c.Writer(), req, "../"+path.Base(url), code)
